@@ -19,7 +19,7 @@
 //! High-level ops (executed by the harness, opaque to the model):
 //!   create s=<0|1> f=<n> k=<K> <rows> | append f=<n> <rows> | overwrite f=<n> k=<K> <rows> | delete <pred>
 //!   | update <pred> c=<col> v=<int> | merge cols=<ints> ins=<0|1> <rows> | compact t=<n> m=<0|1> | addcol | dropcol <col>
-//!   | index <col> | restore <v>          pred ::= in:<ints> | ge:<int> | all        rows: tablekit form
+//!   | index <col> | restore <v> | config <n>         pred ::= in:<ints> | ge:<int> | all        rows: tablekit form
 //! Because the transactions are produced by the real writers, generation EXECUTES the history (the result is cached
 //! and reused for the generated case; corpus / replay cases are executed afresh and additionally compare the
 //! transactions they see with the recorded ones).
@@ -111,6 +111,7 @@ enum Hl {
     DropCol(usize),
     Index(usize),
     Restore(u64),
+    Config(u64),
 }
 
 impl Hl {
@@ -127,6 +128,7 @@ impl Hl {
             Hl::DropCol(_) => "dropcol",
             Hl::Index(_) => "index",
             Hl::Restore(_) => "restore",
+            Hl::Config(_) => "config",
         }
     }
     fn show(&self) -> String {
@@ -142,6 +144,7 @@ impl Hl {
             Hl::DropCol(c) => format!("dropcol {c}"),
             Hl::Index(c) => format!("index {c}"),
             Hl::Restore(v) => format!("restore {v}"),
+            Hl::Config(n) => format!("config {n}"),
         }
     }
     fn parse(s: &str) -> Option<Self> {
@@ -179,6 +182,7 @@ impl Hl {
             ["dropcol", c] => Hl::DropCol(c.parse().ok()?),
             ["index", c] => Hl::Index(c.parse().ok()?),
             ["restore", v] => Hl::Restore(v.parse().ok()?),
+            ["config", n] => Hl::Config(n.parse().ok()?),
             _ => return None,
         })
     }
@@ -374,6 +378,12 @@ impl C05 {
                 let mut old = kit.block_on(d.checkout_version(*v))?;
                 kit.block_on(old.restore())?;
                 Ok(old)
+            }
+            Hl::Config(n) => {
+                let mut d = need()?;
+                let v = n.to_string();
+                kit.block_on(async { d.update_config([("c05.key", v.as_str())]).await })?;
+                Ok(d)
             }
         }
     }
@@ -571,7 +581,8 @@ impl C05 {
                     69..=76 => "addcol",
                     77..=83 => "dropcol",
                     84..=91 => "index",
-                    92..=96 => "restore",
+                    92..=95 => "restore",
+                    96 | 97 => "config",
                     _ => "overwrite",
                 }
                 .to_string()
@@ -620,6 +631,7 @@ impl C05 {
             "dropcol" => Hl::DropCol(if others.is_empty() || (malformed && rng.chance(1, 3)) { 0 } else { *rng.pick(&others) }),
             "index" => Hl::Index(if malformed && rng.chance(1, 3) { 77 } else { *rng.pick(&cols) }),
             "restore" => Hl::Restore(if malformed && rng.chance(1, 3) { version + 3 } else { 1 + rng.below(version) }),
+            "config" => Hl::Config(rng.below(5)),
             _ => {
                 let k = 2 + rng.usize(3);
                 let n = 1 + rng.usize(6);
@@ -879,7 +891,7 @@ impl Prop for C05 {
 
     fn budget(&self, tier: Tier) -> usize {
         match tier {
-            Tier::Quick => 520,
+            Tier::Quick => 900,
             Tier::Thorough => 7000,
             Tier::Search => 1500,
         }
@@ -911,7 +923,7 @@ impl Prop for C05 {
          drop column, two partial merge_inserts; index + compaction; delete/update/compact/restore/append …) with random \
          arguments; the rest are random histories of 3-10 ops after a create (2-4 Int64 columns, 2-9 rows, max_rows_per_file \
          2-5, stable row ids 40%): append 18%, delete 11%, update 10%, partial-schema merge_insert 16%, full merge_insert 4%, \
-         compact_files 10%, add column 8%, drop column 7%, create BTree index 8%, restore 5%, overwrite 3%. Every op is chosen \
+         compact_files 10%, add column 8%, drop column 7%, create BTree index 8%, restore 4%, update_config 2%, overwrite 2%. Every op is chosen \
          from the REAL state (live keys, columns, version) and executed while generating, so the op line can carry the \
          transactions the writers produced; 15% malformed (wrong width, unknown column, duplicate source key, restore of a \
          future version, drop of the key column, broken syntax). Non-trivial = at least 3 commits of at least 3 different \
